@@ -741,7 +741,7 @@ func c15Exec(t *testing.T, r *kit.Run) func(wProg) kit.Outcome {
 		if obs.busy > 0 {
 			o.Classes = append(o.Classes, "busy")
 		}
-		if fail != "" {
+		if fail != "" && res.Viol == nil {
 			o.Skip = true
 			fmt.Println("C15 bubble failure (not judged here):", firstLine(fail))
 			return o
